@@ -26,7 +26,7 @@ for pid, d in props.items():
         replay_cmd_template="cat {path}",
         engine=eng,
         level_claimed=dict(category="proof",
-                           text=d.get("level_text") or "every obligation generated from the contracts on the real function bodies is discharged by the verifier for all inputs and iterations (Verus: f64 as reals; Kani: bit-precise, loop-free/full-domain); clauses listed under not_claimed in the evidence are not covered",
+                           text=d.get("level_text") or "every obligation generated from the contracts on the real function bodies is discharged by the verifier for all inputs and iterations (Verus: f64 as reals; Kani: bit-precise, loop-free/full-domain); clauses listed under not_claimed in the evidence are NOT proved - where the evidence lists a bounded native check they are evaluated on its stated input space only (labelled bounded, never counted as a discharged obligation)",
                            design_ref="DESIGN.md section 4, " + pid),
         level_note=d.get("level_note") or (("assumed: " + "; ".join(map(str, d.get("assumptions", []))))[:1200] +
                                            (" || clauses of the property NOT claimed: " + "; ".join(map(str, d.get("not_claimed", []))))[:1500]),
